@@ -40,6 +40,12 @@ THEOREMS = [
     'Tbox.C17.C17_result_matches_doc_par_leaves', 'Tbox.C17.C17_par_leaves_finishes_exactly_once', 'Tbox.C17.par_leaves_run',
     'Tbox.C17.runTask_PI', 'Tbox.C17.fireOne_PI', 'Tbox.C17.step_PI', 'Tbox.C17.start_PI', 'Tbox.C17.run_PI',
     'Tbox.C17.C17_timeout_result_depends_on_pass_granularity',
+    # round 9: never stuck (serial class, Parallel over leaves), late passes, widths, firing timeouts, fine schedules
+    'Tbox.C17.C17_never_stuck_partial', 'Tbox.C17.C17_never_stuck_par_leaves', 'Tbox.C17.never_stuck_run', 'Tbox.C17.par_leaves_never_stuck',
+    'Tbox.C17.C17_tree_inv_late', 'Tbox.C17.stepL_wf', 'Tbox.C17.stepLateR_wf',
+    'Tbox.C17.C17_repeat_count_width', 'Tbox.C17.C17_repeat_count_narrowing_counterexample', 'Tbox.C17.C17_sleep_deadline_width',
+    'Tbox.C17.C17_sleep_deadline_wrap_counterexample', 'Tbox.C17.C17_finish_time_fits',
+    'Tbox.C17.C17_timeout_fires', 'Tbox.C17.C17_fine_schedule_timer_phase', 'Tbox.C17.C17_fine_schedule_on_race_tree',
     # the inductive steps themselves
     'Tbox.C17.bstep_inv', 'Tbox.C17.step_wf', 'Tbox.C17.reachable_wf', 'Tbox.C17.seq_drive_aux',
 ]
@@ -50,6 +56,7 @@ SOURCES = FLOW + ['modules/util/variables.cpp', 'modules/util/string.cpp', 'modu
 FLAVOUR = 'asan'
 LIBS = ['-ldl']
 BATCH = 150
+BATCH_TIMEOUT = 600     # no wall-clock assumption: a batch holds up to 3 cases of 10^5 loop passes; under full load they take seconds, not minutes
 MAX_REPORT = 6
 SHRINK_TESTS = 120
 TRUSTED = [
@@ -63,11 +70,13 @@ TRUSTED = [
 ASSUMPTIONS = [
     'control calls (start/pause/resume/stop/reset) are made on the root only, from the loop thread: from outside (do / defer) or from inside the callbacks of the ROOT (final: synchronous inside finish()/stop(); finish, block: from the loop) — these are modelled; control calls on the root from call-outs of INNER nodes (FunctionAction bodies, final callbacks of inner composites; op `icb`) are run in free mode: not predicted by the model, the harness evaluates the prediction-free clauses (nothing under way below an ended action, finish notification once per run and only while Finished, block notification not while Idle/Stoped, final callback only on an ended action, root not under way / Idle at the end of an op whose last call was stop() / reset(), no Running composite without a child under way once settled); control calls on inner nodes (misuse: the parent keeps its own bookkeeping) are not generated',
     'a DummyAction leaf is completed / blocked by its owner only while it is running',
-    'no two armed timers share a deadline (durations are 100k + a residue unique per node, clock steps are multiples of 100 ms)',
+    'no two armed timers share a deadline (durations are 100k + a residue unique per node, clock steps are multiples of 100 ms; the raw-millisecond families Zr<ms> / @r<ms> / advr / advdo are written so that deadlines stay distinct)',
+    'durations and clock values stay below 2^43 + 4*10^11 ms (steady_clock time points are int64 nanoseconds: C17_finish_time_fits); every case starts at the same virtual instant',
+    'RepeatAction counts are size_t (< 2^64): C17_repeat_count_width; larger numerals are rejected by both sides',
     'ActionExecutor: its actions are leaves (dummy / function / pre-stopped); callbacks do not call back into the executor; destruction is exercised only between cases',
     'run ids do not wrap (2^63 deferred tasks)',
 ]
-RULE = ('(re-entrant control: one-shot scripts start/pause/resume/stop/reset attached to the final / finish / block callback of the root, exhaustively over small trees x scripts x one control call, and in random scripts) random action trees (depth <= 4, <= 40 nodes, all 10 composites and all their modes, leaves Function succ/fail(+case tag), Sleep, Dummy, '
+RULE = ('(round 9: width families - sleeps / timeouts of B-1, B, B+1 ms for B = 2^15 2^16 2^31 2^32 2^42 and 0 driven to 1 ms before and across the deadline, with pause/resume on both sides; RepeatAction counts 0 1 2 3 2^16+1 2^31+1 2^32-1 2^32 2^32+1 2^63+1 2^64-1; 3*10^4 (thorough: 10^5) synchronous loop iterations with the exact call count; late passes `advdo` (clock moves between timer phase and control calls: negative remaining span); call-outs from function bodies on ancestors other than the root, free mode) (re-entrant control: one-shot scripts start/pause/resume/stop/reset attached to the final / finish / block callback of the root, exhaustively over small trees x scripts x one control call, and in random scripts) random action trees (depth <= 4, <= 40 nodes, all 10 composites and all their modes, leaves Function succ/fail(+case tag), Sleep, Dummy, '
         'timeouts on any node) driven by op scripts: start, then passes / clock steps / control calls (single, paired, deferred with runNext) and '
         'emits on dummy leaves; plus exhaustive placement of one (thorough: two) control calls over all passes of small trees; plus Parallel trees with pause at pass i and resume / resume+pause / stop / reset start at every pass j >= i (tags par+pause par+resume par+stop par+reset par-paused), timeouts expiring in the same pass as a child finishes next to the schedules where they do not (tag tmo-race), control-free Parallel-over-leaves runs of 0-8 children; non-trivial = the root '
         'delivered a finish or block notification on a tree of >= 3 nodes, or a result was held back / replayed, or a timeout fired; distinct = distinct op text')
@@ -246,7 +255,8 @@ FREE_TREES = [
     ('( rep:2:nb ( seq:all Fs Z0 ) )', [2], [0, 1]), ('( cmp ( seq:all Fs D ) )', [2], [0, 1]), ('( wr:i ( par:anys Fs D ) )', [2], [0, 1]),
     ('( seq:all Z0 ( par:anyf ( seq:all ) D Fs ) Fs )', [5, 6], [0, 2, 3]), ('( par:anyf D ( seq:all Fs Fs ) )', [3, 4], [0, 2]),
     ('( sw:d Fs:0 ( seq:all Fs Fs ) Fs )', [1, 3, 4, 5], [0, 2]), ('( ift Fs ( seq:all Fs ) Ff Fs )', [1, 3, 4, 5], [0, 2]),
-    ('( lif:t Fs ( seq:all Fs Z0 ) )', [1, 3], [0, 2]), ('( seq:all@1 Fs Z1 Fs )', [1, 3], [0]), ('( par:all@0 ( seq:all Fs Z1 ) D )', [2], [0, 1]),
+    ('( lif:t Fs ( seq:all Fs Z0 ) )', [1, 3], [0, 2]), ('( seq:all@1 Fs Z1 Fs )', [1, 3], [0]), ('( cmp@1 ( seq:all Z1 Fs ) )', [3], [0, 1]),
+    ('( seq:all ( cmp@1 ( seq:all Z1 Fs ) ) Fs )', [4, 5], [0, 1, 2]), ('( par:all@0 ( seq:all Fs Z1 ) D )', [2], [0, 1]),
 ]
 
 
@@ -347,8 +357,139 @@ def gen_plain_par(rng):
     return ops
 
 
+
+# ---- round 9: width / sign boundary families (lesson a), late passes, long synchronous loops ---------------------------
+BOUNDS = [1 << 15, 1 << 16, 1 << 31, 1 << 32, 1 << 42]
+
+
+def gen_width_sleep():
+    """SleepAction durations and Action timeouts of exactly B-1, B, B+1 ms for B = 2^15, 2^16, 2^31, 2^32, 2^42, and 0:
+    the real code is driven (virtual clock) to 1 ms before the deadline and then across it; pause / resume with the
+    remaining span on both sides of B"""
+    for B in BOUNDS:
+        for d in (-1, 0, 1):
+            D = B + d
+            # finishes exactly at D, not 1 ms earlier
+            yield ['tree ( seq:all Zr%d Fs )' % D, 'do start', 'pass', 'advr %d' % (D - 1), 'pass', 'advr 1', 'pass', 'pass', 'pass']
+            # one late pass far beyond
+            yield ['tree ( seq:all Fs Zr%d )' % D, 'do start', 'pass', 'advr %d' % (D + min(B, 1 << 32)), 'pass', 'pass', 'pass']
+            # pause after 3 ms: the remaining span D-3 is re-armed on resume, 7 ms of pause do not count
+            yield ['tree ( seq:all Zr%d Fs )' % D, 'do start', 'advr 3', 'do pause', 'advr 7', 'do resume', 'advr %d' % (D - 4), 'pass',
+                   'advr 1', 'pass', 'pass', 'pass']
+            # pause when only 5 ms remain (the elapsed part is the large one)
+            yield ['tree ( par:all Zr%d Fs )' % D, 'do start', 'advr %d' % (D - 5), 'do pause', 'advr %d' % B, 'do resume', 'advr 4', 'pass',
+                   'advr 1', 'pass', 'pass', 'pass']
+            # timeout D against a sleep 3 ms longer / shorter, passes as fine as the deadlines
+            yield ['tree ( seq:all@r%d Zr%d Fs )' % (D, D + 3), 'do start', 'advr %d' % (D - 1), 'pass', 'advr 1', 'pass', 'advr 2', 'pass', 'pass', 'pass']
+            yield ['tree ( seq:all@r%d Zr%d Fs )' % (D, D - 3), 'do start', 'advr %d' % (D - 4), 'pass', 'advr 1', 'pass', 'advr 3', 'pass', 'pass', 'pass']
+            # the timeout is re-armed with the FULL interval on resume
+            yield ['tree ( wr:i@r%d D )' % D, 'do start', 'advr %d' % (D - 1), 'do pause', 'advr 5', 'do resume', 'advr %d' % (D - 1), 'pass',
+                   'advr 1', 'pass', 'pass', 'pass']
+            # a leaf with its own timeout on either side of its delay
+            yield ['tree ( seq:all Zr%d@r%d Fs )' % (D, D + 1), 'do start', 'advr %d' % D, 'pass', 'pass', 'advr 1', 'pass', 'pass']
+            yield ['tree ( seq:all Zr%d@r%d Fs )' % (D + 1, D), 'do start', 'advr %d' % D, 'pass', 'pass', 'advr 1', 'pass', 'pass']
+    # zero durations
+    yield ['tree ( seq:all Zr0 Fs Zr0 Fs )', 'do start', 'pass', 'pass', 'pass', 'pass', 'pass', 'pass']
+    yield ['tree ( seq:all@r0 Fs Fs )', 'do start', 'pass', 'pass', 'pass']
+    yield ['tree ( seq:all@r0 Zr1 Fs )', 'do start', 'pass', 'advr 1', 'pass', 'pass']
+    yield ['tree ( loop:fe@r7 Zr0 )', 'do start', 'pass', 'pass', 'pass', 'advr 6', 'pass', 'advr 2', 'pass', 'pass', 'pass']
+    yield ['tree ( rep:3:nb Zr0 )', 'do start', 'do pause', 'pass', 'do resume', 'pass', 'pass', 'pass', 'pass', 'pass', 'pass']
+    yield ['tree ( par:anys Zr0@r2 Zr3@r1 D )', 'do start', 'pass', 'advr 1', 'pass', 'advr 1', 'pass', 'advr 1', 'pass', 'pass']
+
+
+REP_COUNTS = [0, 1, 2, 3, (1 << 16) + 1, (1 << 16) + 2, (1 << 31) + 1, (1 << 32) - 1, 1 << 32, (1 << 32) + 1, (1 << 32) + 2, (1 << 63) + 1, (1 << 64) - 1]
+
+
+def gen_width_repeat():
+    """RepeatAction(times) is a size_t: counts on both sides of 2^16 / 2^31 / 2^32 / 2^63 and SIZE_MAX (a count narrowed to
+    16 / 32 bits would end the run after 1 or 2 iterations, or never); 0 wraps to SIZE_MAX ("for ever")"""
+    for n in REP_COUNTS:
+        for m, kid in (('nb', 'Fs'), ('bf', 'Fs'), ('bs', 'Ff'), ('nb', '( seq:all Fs Ff )')):
+            yield ['tree ( rep:%d:%s %s )' % (n, m, kid), 'do start', 'passes 9', 'do pause', 'pass', 'do resume', 'passes 5', 'do stop', 'pass',
+                   'do reset start', 'passes 4', 'do stop', 'pass']
+    yield ['tree ( rep:18446744073709551616:nb Fs )', 'tree ( rep:99999999999999999999999:nb Fs )', 'tree Zr8796093022209', 'tree Fs@r8796093022209',
+           'tree Zr8796093022208', 'advr 8796093022209', 'advdo 1', 'advdo x pause', 'passes 0', 'passes 200001', 'passes', 'tree Zr', 'tree Fs@r', 'tree Zrx']
+
+
+def gen_long_loops(quick=False):
+    """10^5 iterations of a loop whose body finishes synchronously: every iteration is one loop pass (the child's result travels
+    through runNext), so the stack depth does not grow; the exact number of calls is compared"""
+    n = 30000 if quick else 100000
+    yield ['tree ( rep:%d:nb Fs )' % n, 'do start', 'passes %d' % (n - 2), 'pass', 'pass', 'pass', 'pass']
+    yield ['tree ( loop:us ( seq:all Fs Ff ) )', 'do start', 'passes %d' % n, 'do pause', 'pass', 'do resume', 'passes 10', 'do stop', 'pass']
+    yield ['tree ( lif:t Fs ( rep:2:nb Fs ) )', 'do start', 'passes 30000', 'do reset start', 'passes 100', 'do stop', 'pass']
+
+
+LATE_TREES = ['( seq:all Z1 Fs )', '( par:all Z1 Z2 )', '( seq:all@1 Z2 Fs )', '( par:anys@2 Z1 D )', '( wr:i Z1@2 )', '( loop:uf@3 Z0 )',
+              '( seq:all ( par:all Z1 Z1 ) Z0 )', '( rep:2:nb ( seq:all Z0 Z1 ) )', '( ife:tt Z1 Z1 Fs )', '( cmp@2 ( seq:all Z1 Z1 ) )']
+LATE_CALLS = ['pause', 'pause resume', 'stop', 'reset start', 'pause resume pause', 'pause stop', 'resume']
+
+
+def gen_late(quick):
+    """late passes (`advdo`): the clock moves past one or several deadlines BETWEEN the timer phase and the control calls of the
+    same pass: pause() with finish_time_ < now (negative remaining span), stop / reset of actions whose timers are due"""
+    for tree in LATE_TREES:
+        for ms in (100, 300, 700):
+            for c in (LATE_CALLS if not quick else LATE_CALLS[:4]):
+                yield ['tree ' + tree, 'do start', 'pass', 'advdo %d %s' % (ms, c), 'pass', 'do resume', 'pass', 'adv 2', 'pass', 'pass', 'adv 4', 'pass', 'pass']
+                if not quick or ms == 300:
+                    yield ['tree ' + tree, 'do start', 'adv 1', 'advdo %d %s' % (ms, c), 'advdo %d resume' % ms, 'pass', 'advdo 100 pause', 'pass', 'do resume',
+                           'adv 5', 'pass', 'pass', 'pass']
+
+
+def gen_late_random(rng):
+    tree, n, dummies = gen_tree(rng, max_depth=rng.choice([2, 3]), max_nodes=rng.choice([6, 12, 20]), p_tmo=rng.choice([0.1, 0.3]),
+                                leaves=rng.choice(['FZZ', 'FZZD', 'ZZ']))
+    ops = [tree, 'do start']
+    for _ in range(rng.choice([6, 12, 20])):
+        r = rng.random()
+        if r < 0.35: ops.append('pass')
+        elif r < 0.5: ops.append('adv %d' % rng.choice([1, 1, 2, 3]))
+        elif r < 0.85: ops.append('advdo %d %s' % (rng.choice([100, 100, 200, 300, 400, 600]), ' '.join(rand_call(rng, dummies) for _ in range(rng.choice([1, 1, 2])))))
+        else: ops.append('do ' + rand_call(rng, dummies))
+    ops += ['do resume', 'pass', 'adv 8', 'pass', 'pass']
+    return ops
+
+
+# (tree, [(function leaf, its parent, further ancestors below the root …)]) for call-outs on ancestors OTHER than the root
+ANC_TREES = [
+    ('( seq:all Fs ( seq:all Fs Fs ) Fs )', [(3, [2]), (4, [2])]),
+    ('( seq:all ( par:all Fs Fs D ) Fs )', [(2, [1]), (3, [1])]),
+    ('( par:all ( seq:all Fs Z0 Fs ) D )', [(2, [1]), (4, [1])]),
+    ('( seq:all ( wr:i ( seq:all Fs Fs ) ) Fs )', [(3, [2, 1]), (4, [2, 1])]),
+    ('( seq:all ( loop:us ( seq:all Fs Ff ) ) Fs )', [(3, [2, 1]), (4, [2, 1])]),
+    ('( seq:all ( rep:2:nb ( seq:all Fs Z0 ) ) Fs )', [(3, [2, 1])]),
+    ('( seq:all ( ife:tt Fs ( seq:all Fs Z0 ) Ff ) Fs )', [(2, [1]), (4, [3, 1])]),
+    ('( par:anys ( par:anyf Fs Ff D ) D )', [(2, [1]), (3, [1])]),
+    ('( cmp ( sw:d Fs:0 ( seq:all Fs Fs ) Fs ) )', [(2, [1]), (4, [3, 1])]),
+    ('( seq:all ( ift Fs ( seq:all Fs ) Ff Fs ) Fs )', [(2, [1]), (4, [3, 1])]),
+    ('( seq:all ( lif:t Fs ( seq:all Fs Z0 ) ) Fs )', [(2, [1]), (4, [3, 1])]),
+    ('( seq:all@1 ( seq:all@0 Fs Z1 ) Fs )', [(2, [1])]),
+]
+ANC_SCRIPTS = ['stop', 'pause', 'reset', 'pause resume', 'stop reset', 'reset start', 'stop reset start', 'start']
+
+
+def gen_anc(quick):
+    """re-entrant control from the body of a FunctionAction leaf on an ancestor that is NOT the root (its parent, its
+    grandparent): free mode; the harness evaluates the prediction-free clauses on every node (no `settle`: an inner action
+    stopped or reset behind the back of its parent legitimately leaves that parent waiting)"""
+    for (tree, fns) in ANC_TREES:
+        for (f, ancs) in fns:
+            for a in ancs:
+                for sc in (ANC_SCRIPTS if not quick else ANC_SCRIPTS[:6]):
+                    ops = ['tree ' + tree, 'icb body %d %d %s' % (f, a, sc), 'do start', 'pass', 'pass', 'adv 2', 'pass', 'pass', 'do pause', 'pass',
+                           'do resume', 'pass', 'adv 5', 'pass', 'do stop', 'pass', 'do reset start', 'pass', 'pass', 'adv 5', 'pass', 'pass']
+                    yield ops
+
 def gen(rng, tier):
     quick = tier == 'quick'
+    yield from gen_width_sleep()
+    yield from gen_width_repeat()
+    yield from gen_long_loops(quick)
+    yield from gen_late(quick)
+    yield from gen_anc(quick)
+    for _ in range(150 if quick else 1500):
+        yield gen_late_random(rng)
     yield from gen_par_ctl(quick)
     yield from gen_tmo_race()
     for _ in range(60 if quick else 600):
@@ -498,7 +639,7 @@ LEVEL_TEXT = ('Lean 4 theorems over an executable model of the action framework.
               'evaluates WF and the documented result (reference evaluator, all composites) on every visited state')
 LEVEL_NOTE = ('whole-tree "root result = documented meaning, exactly one finish notification, leaves called in the documented order" is PROVED through '
               'the deferred queue for trees of Sequence/IfElse/IfThen/Switch/Wrapper/Composite/Loop/LoopIf/Repeat(n>=1) over Function and Sleep leaves (C17_result_matches_doc_serial, '
-              'safety for every pass/clock sequence; C17_finishes_exactly_once, liveness: after cost(t)+1 big clock steps / passes in any fair schedule the trace IS the complete visit order + one finish, when the evaluator terminates; C17_loop_never_finishes: otherwise no finish notification ever; C17_skeleton_preserved for every op sequence), and for ParallelAction (all three modes, any number of children) over Function and Sleep leaves as the root (C17_result_matches_doc_par_leaves: all children called in child order inside start(), then none or exactly one finish (true,0) for every pass/clock sequence; C17_par_leaves_finishes_exactly_once: three big ops suffice, root Finished, nothing left Running/Pause; batch invariant PI kept by every runTask/fireOne in any order); OPEN: order of the calls of a non-terminating loop, Parallel nested below serial composites or over composite children, timeouts (C17_timeout_result_depends_on_pass_granularity: the result of a tree with a timeout depends on whether a loop pass runs between two deadlines, so the statement needs a schedule hypothesis) (all compared with the evaluator on '
+              'safety for every pass/clock sequence; C17_finishes_exactly_once, liveness: after cost(t)+1 big clock steps / passes in any fair schedule the trace IS the complete visit order + one finish, when the evaluator terminates; C17_loop_never_finishes: otherwise no finish notification ever; C17_skeleton_preserved for every op sequence), and for ParallelAction (all three modes, any number of children) over Function and Sleep leaves as the root (C17_result_matches_doc_par_leaves: all children called in child order inside start(), then none or exactly one finish (true,0) for every pass/clock sequence; C17_par_leaves_finishes_exactly_once: three big ops suffice, root Finished, nothing left Running/Pause; batch invariant PI kept by every runTask/fireOne in any order); round 9: C17_never_stuck_partial / C17_never_stuck_par_leaves (a Running root of the covered classes always waits for a queued task, an armed timer or a child under way, in every control-free run), C17_tree_inv_late (WF and its corollaries with late passes), C17_timeout_fires (any tree, any state: a firing timeout leaves the action Finished/fail with reason 1 queued and no descendant under way), C17_repeat_count_width / C17_sleep_deadline_width / C17_finish_time_fits (the ranges in which the Nat/Int values of the model are the C++ size_t / uint64 / int64-ns values, with counterexamples outside); OPEN: order of the calls of a non-terminating loop, Parallel nested below serial composites or over composite children, timeouts (C17_timeout_result_depends_on_pass_granularity: the result of a tree with a timeout depends on whether a loop pass runs between two deadlines, so the statement needs a schedule hypothesis) (all compared with the evaluator on '
               'every control-free generated run for all composites); trace equivalence '
               'of a reset tree with a fresh one in general (proved: Clean + WF after reset, and C17_rerun_after_reset: covered class, second run without control calls, after any history); ActionExecutor: one-at-a-time, heads-only, highest-priority-first and callbacks-once proved; trusted: Lean kernel, '
               'hand-written model, harness, generator coverage (measured)')
